@@ -697,4 +697,479 @@ theorem run_fp (ops : List (Op × List OsDir)) : ∀ {hs hs' : Hist} {evs : List
     simp only [got_append, gave_append] at o2 ⊢
     omega
 
+/-! ### refusal of memory by the OS -/
+
+/-- some mmap in the list was refused -/
+def refused : List OsEv → Bool
+  | [] => false
+  | .mmap _ none :: _ => true
+  | _ :: es => refused es
+
+theorem refused_append (a b : List OsEv) : refused (a ++ b) = (refused a || refused b) := by
+  induction a with
+  | nil => simp [refused]
+  | cons e es ih =>
+    cases e with
+    | mmap len res => cases res <;> simp [refused, ih]
+    | mremap => simp [refused, ih]
+    | munmap => simp [refused, ih]
+
+/-- the allocator's own state: everything except the environment queue and the ghost fields -/
+def St.core (s : St) : St := { s with osq := [], evs := [], h := { s.h with tr := [] } }
+
+theorem core_tag (s : St) (t : String) : (s.tag t).core = s.core := rfl
+
+theorem releaseLoop_quiet (rest : List Seg) : ∀ {s s' : St} {rel n rel' n' : Nat} {rest' : List Seg},
+    releaseLoop rest s rel n = .ok (rest', s', rel', n') → refused s'.evs = refused s.evs := by
+  induction rest with
+  | nil =>
+    intro s s' rel n rel' n' rest' h
+    unfold releaseLoop at h
+    msimp at h
+    simp only [Prod.mk.injEq] at h
+    obtain ⟨_, h2, _, _⟩ := h
+    subst h2; rfl
+  | cons g rest ih =>
+    intro s s' rel n rel' n' rest' h
+    unfold releaseLoop at h
+    dsimp only at h
+    msimp at h
+    obtain ⟨e, he, _, _, h⟩ := h
+    split at h
+    · msimp at h
+      obtain ⟨_, _, h1, hh1, ⟨ok, s1⟩, hu, h⟩ := h
+      obtain ⟨q, hq, hs1⟩ := popU_spec hu
+      dsimp only at h
+      split at h
+      · msimp at h
+        obtain ⟨_, hlt, ⟨r1, s2, rl, nn⟩, hrec, h⟩ := h
+        have := ih hrec
+        simp only [Prod.mk.injEq] at h
+        obtain ⟨_, e2, _, _⟩ := h
+        subst e2; subst hs1
+        simp only [refused_append, refused, Bool.or_false] at this
+        exact this
+      · msimp at h
+        obtain ⟨h2, _, ⟨r1, s2, rl, nn⟩, hrec, h⟩ := h
+        have := ih hrec
+        simp only [Prod.mk.injEq] at h
+        obtain ⟨_, e2, _, _⟩ := h
+        subst e2; subst hs1
+        simp only [refused_append, refused, Bool.or_false] at this
+        exact this
+    · msimp at h
+      obtain ⟨⟨r1, s2, rl, nn⟩, hrec, h⟩ := h
+      have := ih hrec
+      simp only [Prod.mk.injEq] at h
+      obtain ⟨_, e2, _, _⟩ := h
+      subst e2
+      exact this
+
+theorem release_quiet {s s' : St} {r : Nat} (h : release_unused_segments s = .ok (s', r)) :
+    refused s'.evs = refused s.evs := by
+  unfold release_unused_segments at h
+  split at h
+  · msimp at h
+    simp only [Prod.mk.injEq] at h
+    obtain ⟨h, _⟩ := h; subst h; rfl
+  · msimp at h
+    obtain ⟨⟨r1, s2, rl, nn⟩, hrec, h⟩ := h
+    have := releaseLoop_quiet _ hrec
+    simp only [Prod.mk.injEq] at h
+    obtain ⟨h, _⟩ := h; subst h
+    exact this
+
+theorem trim_release_quiet {s s' : St} {sp : Seg} {extra rel : Nat} (h : trim_release s sp extra = .ok (s', rel)) :
+    refused s'.evs = refused s.evs := by
+  unfold trim_release at h
+  dsimp only at h
+  split at h
+  · msimp at h
+    obtain ⟨⟨ok, s1⟩, hr, h⟩ := h
+    obtain ⟨q, hq, hs1⟩ := popR_spec hr
+    dsimp only at h
+    split at h
+    · msimp at h
+      simp only [Prod.mk.injEq] at h
+      obtain ⟨e1, _⟩ := h
+      subst e1; subst hs1
+      simp [refused_append, refused]
+    · msimp at h
+      obtain ⟨⟨ok2, s2⟩, hu, h⟩ := h
+      obtain ⟨q2, hq2, hs2⟩ := popU_spec hu
+      simp only [Prod.mk.injEq] at h
+      obtain ⟨e1, _⟩ := h
+      subst e1; subst hs2; subst hs1
+      simp [refused_append, refused]
+  · msimp at h
+    simp only [Prod.mk.injEq] at h
+    obtain ⟨e1, _⟩ := h
+    subst e1; rfl
+
+theorem trim_top_quiet {s s' : St} {pad rel : Nat} (h : trim_top s pad = .ok (s', rel)) :
+    refused s'.evs = refused s.evs := by
+  unfold trim_top at h
+  dsimp only at h
+  split at h
+  · split at h
+    · msimp at h
+    · msimp at h
+      obtain ⟨⟨s1, r1⟩, ht, h⟩ := h
+      have q1 := trim_release_quiet ht
+      dsimp only at h
+      split at h
+      · msimp at h
+        obtain ⟨_, hlt, s2, hi, h⟩ := h
+        have i1 := init_top_fp hi
+        simp only [Prod.mk.injEq] at h
+        obtain ⟨h, _⟩ := h; subst h
+        have e2 : s2.evs = s1.evs := i1.2.2.1
+        simp only [tag_fields, e2, q1]
+      · msimp at h
+        simp only [Prod.mk.injEq] at h
+        obtain ⟨h, _⟩ := h; subst h
+        simp only [tag_fields, q1]
+  · msimp at h
+    simp only [Prod.mk.injEq] at h
+    obtain ⟨h, _⟩ := h; subst h; rfl
+
+theorem sys_trim_quiet {s s' : St} {pad : Nat} {b : Bool} (h : sys_trim s pad = .ok (s', b)) :
+    refused s'.evs = refused s.evs := by
+  unfold sys_trim at h
+  dsimp only at h
+  split at h
+  · msimp at h
+    obtain ⟨⟨s1, rel⟩, h1, ⟨s2, r2⟩, h2, h⟩ := h
+    have b1 := trim_top_quiet h1
+    have b2 := release_quiet h2
+    simp only [Prod.mk.injEq] at h
+    obtain ⟨h, _⟩ := h
+    subst h
+    split
+    · show refused s2.evs = _; rw [b2, b1]
+    · rw [b2, b1]
+  · msimp at h
+    simp only [Prod.mk.injEq] at h
+    obtain ⟨h, _⟩ := h; subst h; rfl
+
+theorem free_quiet {s s' : St} {mem : Nat} (h : free s mem = .ok s') : refused s'.evs = refused s.evs := by
+  unfold free at h
+  msimp at h
+  obtain ⟨⟨h1, t⟩, hf, h⟩ := h
+  dsimp only at h
+  split at h
+  · msimp at h; subst h; rfl
+  · split at h
+    · msimp at h
+      obtain ⟨⟨s1, b⟩, ht, h⟩ := h
+      subst h
+      exact (sys_trim_quiet ht).trans rfl
+    · msimp at h; subst h; rfl
+  · msimp at h
+    obtain ⟨_, _, h⟩ := h
+    split at h
+    · msimp at h
+      obtain ⟨⟨s1, b⟩, ht, h⟩ := h
+      subst h
+      exact (release_quiet ht).trans rfl
+    · msimp at h; subst h; rfl
+
+/-- outcome of an allocating call with respect to refusal: either no mmap was refused during it, or
+it returned null and left the allocator exactly as it was -/
+def RefusalOk (s s' : St) (mem : Nat) : Prop :=
+  refused s'.evs = false ∨ (mem = 0 ∧ s'.core = s.core)
+
+theorem sys_alloc_refusal {s s' : St} {nb mem : Nat} (h0 : refused s.evs = false)
+    (h : sys_alloc s nb = .ok (s', mem)) : RefusalOk s s' mem := by
+  unfold sys_alloc at h
+  dsimp only at h
+  msimp at h
+  obtain ⟨⟨res, s1⟩, hp, h⟩ := h
+  obtain ⟨q, hq, hs1⟩ := popM_spec hp
+  dsimp only at h
+  split at h
+  · msimp at h
+    simp only [Prod.mk.injEq] at h
+    obtain ⟨h, hm⟩ := h
+    subst h; subst hs1
+    exact Or.inr ⟨hm.symm, rfl⟩
+  · rename_i tbase
+    left
+    msimp at h
+    obtain ⟨r, hr, h⟩ := h
+    obtain ⟨s2, hor, hf, he, ho, hsum⟩ := sys_alloc_place_spec hr
+    have key : refused s2.evs = false := by
+      subst hs1
+      simp only at he
+      rw [he, refused_append, h0]; rfl
+    rcases hor with hor | ⟨m, hor⟩
+    · subst hor
+      dsimp only at h
+      split at h
+      · msimp at h
+        mlast h
+        simp only [Prod.mk.injEq] at h
+        obtain ⟨h, _⟩ := h
+        subst h
+        exact key
+      · msimp at h
+        simp only [Prod.mk.injEq] at h
+        obtain ⟨h, _⟩ := h
+        subst h
+        exact key
+    · subst hor
+      dsimp only at h
+      msimp at h
+      simp only [Prod.mk.injEq] at h
+      obtain ⟨h, _⟩ := h
+      subst h
+      exact key
+
+theorem inner_malloc_refusal {s s' : St} {size mem : Nat} (h0 : refused s.evs = false)
+    (h : inner_malloc s size = .ok (s', mem)) : RefusalOk s s' mem := by
+  unfold inner_malloc at h
+  msimp at h
+  obtain ⟨r, hr, h⟩ := h
+  split at h
+  · msimp at h
+    simp only [Prod.mk.injEq] at h
+    obtain ⟨h, _⟩ := h; subst h; exact Or.inl h0
+  · msimp at h
+    simp only [Prod.mk.injEq] at h
+    obtain ⟨h, _⟩ := h; subst h; exact Or.inl h0
+  · exact sys_alloc_refusal h0 h
+
+theorem memalign_refusal {s s' : St} {al bytes mem : Nat} (h0 : refused s.evs = false)
+    (h : memalign s al bytes = .ok (s', mem)) : RefusalOk s s' mem := by
+  unfold memalign at h
+  generalize (if al < MIN_CHUNK_SIZE then MIN_CHUNK_SIZE else al) = al at h
+  unfold memalign_body at h
+  dsimp only at h
+  msimp at h
+  obtain ⟨_, _, h⟩ := h
+  split at h
+  · msimp at h
+    simp only [Prod.mk.injEq] at h
+    obtain ⟨h, _⟩ := h; subst h; exact Or.inl h0
+  · msimp at h
+    obtain ⟨⟨s1, m1⟩, hm, h⟩ := h
+    have b1 := inner_malloc_refusal (s := s.tag "memalign") h0 hm
+    dsimp only at h
+    split at h
+    · rename_i hz
+      msimp at h
+      simp only [Prod.mk.injEq] at h
+      obtain ⟨h, hm0⟩ := h; subst h
+      rcases b1 with b1 | ⟨_, b1⟩
+      · exact Or.inl b1
+      · exact Or.inr ⟨hm0.symm, b1⟩
+    · rename_i hz
+      msimp at h
+      obtain ⟨⟨h2, m2⟩, _, h⟩ := h
+      simp only [Prod.mk.injEq] at h
+      obtain ⟨h, _⟩ := h; subst h
+      rcases b1 with b1 | ⟨b1, _⟩
+      · exact Or.inl b1
+      · exact absurd b1 hz
+
+theorem malloc_refusal {s s' : St} {size al mem : Nat} (h0 : refused s.evs = false)
+    (h : malloc s size al = .ok (s', mem)) : RefusalOk s s' mem := by
+  unfold malloc at h
+  split at h
+  · exact inner_malloc_refusal h0 h
+  · exact memalign_refusal h0 h
+
+theorem calloc_refusal {s s' : St} {size al mem : Nat} {z : Bool} (h0 : refused s.evs = false)
+    (h : calloc s size al = .ok (s', mem, z)) : RefusalOk s s' mem := by
+  unfold calloc at h
+  msimp at h
+  obtain ⟨⟨s1, p⟩, hm, h⟩ := h
+  have b := malloc_refusal h0 hm
+  dsimp only at h
+  split at h
+  · rename_i hz
+    msimp at h
+    mlast h
+    simp only [Prod.mk.injEq] at h
+    obtain ⟨h, _⟩ := h; subst h
+    rcases b with b | ⟨b, _⟩
+    · exact Or.inl b
+    · exact absurd b hz
+  · msimp at h
+    simp only [Prod.mk.injEq] at h
+    obtain ⟨h, hm0, _⟩ := h; subst h
+    rcases b with b | ⟨_, b⟩
+    · exact Or.inl b
+    · exact Or.inr ⟨hm0.symm, b⟩
+
+theorem inner_realloc_refusal {s s' : St} {oldmem bytes mem : Nat} {c : Option Copy}
+    (h0 : refused s.evs = false)
+    (h : inner_realloc s oldmem bytes = .ok (s', mem, c)) : RefusalOk s s' mem := by
+  unfold inner_realloc at h
+  split at h
+  · msimp at h
+    simp only [Prod.mk.injEq] at h
+    obtain ⟨h, _⟩ := h; subst h; exact Or.inl h0
+  · dsimp only at h
+    msimp at h
+    obtain ⟨_, _, r, hr, h⟩ := h
+    split at h
+    · msimp at h
+      simp only [Prod.mk.injEq] at h
+      obtain ⟨h, _⟩ := h; subst h; exact Or.inl h0
+    · msimp at h
+      obtain ⟨⟨s1, p⟩, hm, h⟩ := h
+      have b1 := inner_malloc_refusal (s := s.tag "realloc-move") h0 hm
+      dsimp only at h
+      split at h
+      · rename_i hz
+        msimp at h
+        obtain ⟨e, _, _, _, _, _, s2, hf, h⟩ := h
+        simp only [Prod.mk.injEq] at h
+        obtain ⟨h, _⟩ := h; subst h
+        rcases b1 with b1 | ⟨b1, _⟩
+        · left; rw [free_quiet hf]; exact b1
+        · exact absurd b1 hz
+      · msimp at h
+        simp only [Prod.mk.injEq] at h
+        obtain ⟨h, hm0, _⟩ := h; subst h
+        rcases b1 with b1 | ⟨_, b1⟩
+        · exact Or.inl b1
+        · exact Or.inr ⟨hm0.symm, b1⟩
+
+theorem realloc_refusal {s s' : St} {ptr os oa ns mem : Nat} {c : Option Copy}
+    (h0 : refused s.evs = false)
+    (h : realloc s ptr os oa ns = .ok (s', mem, c)) : RefusalOk s s' mem := by
+  unfold realloc at h
+  split at h
+  · exact inner_realloc_refusal h0 h
+  · msimp at h
+    obtain ⟨⟨s1, p⟩, hm, h⟩ := h
+    have b1 := malloc_refusal (s := s.tag "realloc-overaligned") h0 hm
+    dsimp only at h
+    split at h
+    · rename_i hz
+      msimp at h
+      obtain ⟨s2, hf, h⟩ := h
+      simp only [Prod.mk.injEq] at h
+      obtain ⟨h, _⟩ := h; subst h
+      rcases b1 with b1 | ⟨b1, _⟩
+      · left; rw [free_quiet hf]; exact b1
+      · exact absurd b1 hz
+    · msimp at h
+      simp only [Prod.mk.injEq] at h
+      obtain ⟨h, hm0, _⟩ := h; subst h
+      rcases b1 with b1 | ⟨_, b1⟩
+      · exact Or.inl b1
+      · exact Or.inr ⟨hm0.symm, b1⟩
+
+theorem step_refusal {hs hs' : Hist} {op : Op} {os : List OsDir} {out : Out}
+    (h : hs.step op os = .ok (hs', out)) (hr : refused hs'.st.evs = true) :
+    out.ptr = 0 ∧ hs'.st.core = hs.st.core ∧ hs'.live = hs.live := by
+  have h0 : refused (hs.start os).evs = false := rfl
+  unfold Hist.step at h
+  dsimp only at h
+  split at h
+  · msimp at h
+    obtain ⟨_, _, ⟨s1, p⟩, hm, _, _, h⟩ := h
+    simp only [Prod.mk.injEq] at h
+    obtain ⟨h, ho⟩ := h; subst h; subst ho
+    rcases malloc_refusal h0 hm with b | ⟨b1, b2⟩
+    · simp only at hr; rw [b] at hr; cases hr
+    · subst b1; exact ⟨rfl, b2, by simp⟩
+  · msimp at h
+    obtain ⟨_, _, ⟨s1, p, z⟩, hm, _, _, h⟩ := h
+    simp only [Prod.mk.injEq] at h
+    obtain ⟨h, ho⟩ := h; subst h; subst ho
+    rcases calloc_refusal h0 hm with b | ⟨b1, b2⟩
+    · simp only at hr; rw [b] at hr; cases hr
+    · subst b1; exact ⟨rfl, b2, by simp⟩
+  · split at h
+    · msimp at h
+    · msimp at h
+      obtain ⟨⟨s1, p, c⟩, hm, _, _, h⟩ := h
+      simp only [Prod.mk.injEq] at h
+      obtain ⟨h, ho⟩ := h; subst h; subst ho
+      rcases realloc_refusal h0 hm with b | ⟨b1, b2⟩
+      · simp only at hr; rw [b] at hr; cases hr
+      · subst b1; exact ⟨rfl, b2, by simp⟩
+  · split at h
+    · msimp at h
+    · msimp at h
+      obtain ⟨s1, hm, _, _, h⟩ := h
+      simp only [Prod.mk.injEq] at h
+      obtain ⟨h, ho⟩ := h; subst h; subst ho
+      have := free_quiet hm
+      simp only at hr
+      rw [this] at hr
+      cases hr
+
+/-! ### reuse: the OS is asked only when neither `dv` nor `top` can hold the padded request -/
+
+/-- the padded request size `inner_malloc` computes -/
+def nbOf (size : Nat) : Nat := if size ≤ MAX_SMALL_REQUEST then request2size size else pad_request size
+
+theorem malloc_dv_top_needSys {h : Heap} {nb n : Nat} (hh : malloc_dv_top h nb = .ok (.needSys n)) :
+    n = nb ∧ h.dvsize < n ∧ h.topsize ≤ n := by
+  unfold malloc_dv_top at hh
+  dsimp only at hh
+  split at hh
+  · split at hh
+    · msimp at hh; mlast hh; cases hh
+    · msimp at hh; mlast hh; cases hh
+  · split at hh
+    · msimp at hh; mlast hh; cases hh
+    · msimp at hh
+      injection hh with hh
+      subst hh
+      exact ⟨rfl, by omega, by omega⟩
+
+theorem malloc_nosys_needSys {h : Heap} {size n : Nat} (hh : malloc_nosys h size = .ok (.needSys n)) :
+    n = nbOf size ∧ h.dvsize < n ∧ h.topsize ≤ n := by
+  unfold malloc_nosys at hh
+  dsimp only at hh
+  split at hh
+  · rename_i hs
+    have hn : nbOf size = request2size size := by simp [nbOf, hs]
+    split at hh
+    · msimp at hh; mlast hh; cases hh
+    · split at hh
+      · split at hh
+        · msimp at hh
+          obtain ⟨_, _, _, _, hh⟩ := hh
+          split at hh
+          · msimp at hh; mlast hh; cases hh
+          · msimp at hh; mlast hh; cases hh
+        · split at hh
+          · msimp at hh; mlast hh; cases hh
+          · rw [hn]; exact malloc_dv_top_needSys hh
+      · rw [hn]; exact malloc_dv_top_needSys hh
+  · rename_i hs
+    have hn : nbOf size = pad_request size := by simp [nbOf, hs]
+    split at hh
+    · msimp at hh; cases hh
+    · split at hh
+      · msimp at hh
+        obtain ⟨r, _, hh⟩ := hh
+        split at hh
+        · msimp at hh; cases hh
+        · rw [hn]; exact malloc_dv_top_needSys hh
+      · rw [hn]; exact malloc_dv_top_needSys hh
+
+/-- if `dv` or `top` can hold the padded request, `inner_malloc` makes no OS call at all -/
+theorem inner_malloc_reuse {s s' : St} {size mem : Nat} (h : inner_malloc s size = .ok (s', mem))
+    (hfit : nbOf size ≤ s.h.dvsize ∨ nbOf size < s.h.topsize) : s'.evs = s.evs ∧ s'.osq = s.osq := by
+  unfold inner_malloc at h
+  msimp at h
+  obtain ⟨r, hr, h⟩ := h
+  split at h
+  · msimp at h
+    simp only [Prod.mk.injEq] at h
+    obtain ⟨h, _⟩ := h; subst h; exact ⟨rfl, rfl⟩
+  · msimp at h
+    simp only [Prod.mk.injEq] at h
+    obtain ⟨h, _⟩ := h; subst h; exact ⟨rfl, rfl⟩
+  · have := malloc_nosys_needSys hr
+    omega
+
 end TinyVerif.Dl
